@@ -384,15 +384,16 @@ def r3_r4(run: Run, src, cg):
 
 
 def run(run: Run):
+    from .common import cached_guard as _cached_guard
     src = get_source()
     cg = get_callgraph(src)
     run.rule('C09.R1', 'dirty-flag discipline: guard truth table, setter raises flag, flags cleared after the store')
     run.rule('C09.R2', 'written = returned')
     run.rule('C09.R3', 'no nondeterminism source on the translation path')
     run.rule('C09.R4', 'global writes are confirmed, guarded and argument-independent; fresh Context')
-    run.guard('C09.R1', r1_any, run, src)
-    run.guard('C09.R2', r2, run, src)
-    run.guard('C09.R3', r3_r4, run, src, cg)
+    _cached_guard(run, 'C09.R1', r1_any, src)
+    _cached_guard(run, 'C09.R2', r2, src)
+    _cached_guard(run, 'C09.R3', r3_r4, src, cg)
     # values that reach repr() must have a deterministic repr: the reader stores plain data, array formulas as text (C18.R3)
     from .common import borrow
     from . import c18
@@ -401,7 +402,7 @@ def run(run: Run):
     borrow(run, 'C09.R5', c18.r3, src, get_runtime(src))
     from .common import check_mutable_defaults
     run.rule('C09.R6', 'no mutable default value is changed in place or handed out (it would carry one translation into the next)')
-    run.guard('C09.R6', check_mutable_defaults, run, 'C09.R6', src)
+    _cached_guard(run, 'C09.R6', check_mutable_defaults, 'C09.R6', src)
     run.floor('C09.R6', 5)
     run.floor('C09.R5', 5)
     run.floor('C09.R1', 8)
